@@ -152,10 +152,11 @@ def finite_case(case):
             state["bad_w"] = state["steps"]
     cb.after = after
     hist = None
+    caught = []
     try:
-        with warnings.catch_warnings():
-            warnings.simplefilter("ignore")
-            with np.errstate(all="ignore"), seams.optimiser_spy(cb):
+        with warnings.catch_warnings(record=True) as caught:
+            warnings.simplefilter("always")
+            with seams.optimiser_spy(cb):
                 if mode == "path":
                     hist = model.path(X, y, alpha_multiplier=3.0, min_features=1, max_patience=1)
                 else:
@@ -165,6 +166,11 @@ def finite_case(case):
         empty_dyn = "0 feature(s)" in str(e)
         return {"v": [violation("raises_on_legal_input", {"error": repr(e)[:300], "trace": traceback.format_exc()[-700:]}, exc=type(e).__name__,
                                 selection_became_empty=empty_dyn, **where)], "stats": {"evals": 1}}
+    # "no NaN is produced and then silently turned into a degenerate answer": numpy reports every 0/0, inf-inf and sqrt/log of a negative
+    # number with an 'invalid value' RuntimeWarning - none may occur inside fit / path, even when the outputs end up finite
+    nanw = [str(w.message) for w in caught if issubclass(w.category, RuntimeWarning) and "invalid value" in str(w.message)]
+    if nanw:
+        v.append(violation("nan_produced_inside_training", {"warnings": sorted(set(nanw))[:3]}, **where))
     if state["bad_dir"] is not None:
         v.append(violation("non_finite_direction_during_training", {"first_at_step": state["bad_dir"]}, **where))
     if state["bad_w"] is not None:
